@@ -4,6 +4,10 @@ GCS_TRUST = [
     "modelled, not verified: net/http, encoding/json, mime/multipart, gzip, MD5, google/btree, the filesystem, time.Now (assumed strictly increasing between successive writes)",
 ]
 
+BT_TRUST = [
+    "modelled, not verified: protobuf codecs, gRPC, goleveldb, google/btree, RE2 (binaryregexp) on the generated pattern subset",
+]
+
 PROPS = {
     "C04": dict(harness="gcs", trusted=GCS_TRUST,
                 oracle_codes={1: "unparsable precondition not answered 400", 2: "operation performed although a supplied precondition does not hold",
@@ -13,6 +17,14 @@ PROPS = {
     "C02": dict(harness="gcs", trusted=GCS_TRUST, assumptions=["generation numbers compared by rank"]),
     "C10": dict(harness="gcs", trusted=GCS_TRUST, assumptions=["store clock strictly increasing between successive writes (collisions are measured and reported)"]),
     "C15": dict(harness="gcs", trusted=GCS_TRUST, assumptions=["generation numbers compared by rank"]),
+    "C01": dict(harness="bt", trusted=BT_TRUST, assumptions=["server clock and sample coins are inputs"]),
+    "C03": dict(harness="bt", trusted=BT_TRUST, assumptions=["server clock and sample coins are inputs"]),
+    "C05": dict(harness="bt", trusted=BT_TRUST, assumptions=["server clock and sample coins are inputs"]),
+    "C12": dict(harness="bt", trusted=BT_TRUST, assumptions=["server clock and sample coins are inputs"]),
+    "C13": dict(harness="bt", trusted=BT_TRUST, assumptions=["server clock and sample coins are inputs"]),
+    "C14": dict(harness="bt", trusted=BT_TRUST, assumptions=["server clock and sample coins are inputs"]),
+    "C16": dict(harness="bt", trusted=BT_TRUST, assumptions=["server clock and sample coins are inputs"]),
+    "C17": dict(harness="bt", trusted=BT_TRUST, assumptions=["server clock and sample coins are inputs"]),
 }
 
 
